@@ -196,6 +196,11 @@ namespace OP2Utility
 		stream.Read(tileGroup.tileWidth);
 		stream.Read(tileGroup.tileHeight);
 
+		// The 32-bit product must not wrap, or the group would hold fewer indices than its dimensions claim
+		if (tileGroup.tileHeight != 0 && tileGroup.tileWidth > std::numeric_limits<uint32_t>::max() / tileGroup.tileHeight) {
+			throw std::runtime_error("Tile group dimensions are too large.");
+		}
+
 		tileGroup.mappingIndices.resize(tileGroup.tileWidth * tileGroup.tileHeight);
 		stream.Read(tileGroup.mappingIndices);
 
